@@ -2,13 +2,13 @@
 # Build the framework from files on disk only (offline): Coq development (full .vo),
 # extracted model + OCaml driver, hook test binary.
 set -e
-cd /verif/coq
+cd "$(dirname "$(readlink -f "$0")")/coq"
 coq_makefile -f _CoqProject -o Makefile >/dev/null
 timeout 3000 make -j16
-cd /verif
+cd ..
 python3 - <<'PY'
 import sys
-sys.path.insert(0, '/verif')
+import os; sys.path.insert(0, os.getcwd())
 from harness import common as cm
 print(cm.build_model())
 print(cm.build_hook())
